@@ -4,7 +4,9 @@ import random
 from harness import common, sched
 
 FAMILY = 'sched+emit'
-RULE = ('as C01 with emit_step in {1, 2, 3, 0.5, 1.5}; every call of a user Emitter is recorded; rows are compared '
+RULE = ('two streams.  rows: random Stores (depth<=4) with random emit flags, unset values and a custom serializer, '
+        'optionally a store_schema-style config with branch-level _emit and set_emit_value calls: emit_data() compared with '
+        'Model/Emit.v.  times: as C01 with emit_step in {1, 2, 3, 0.5, 1.5}; every call of a user Emitter is recorded; rows are compared '
         'with the model rows (time, all accumulators). Non-trivial: >=2 invocations; distinct by term.')
 ASSUMPTIONS = __import__('harness.c01', fromlist=['x']).ASSUMPTIONS
 IMPORTS, CHECK_FN, BAD_TERM = sched.IMPORTS, sched.CHECK_FN, sched.BAD_TERM
@@ -26,11 +28,36 @@ def generate(seed, tier, enlarged=False):
     for i in range(n):
         cases.append(sched.gen_case(rng, max_procs=4 if tier == 'quick' else 8, scripted=False,
                                     emit_steps=(1, 2, 3, 0.5, 1.5)))
+    from harness import emit
+    for i in range(n):
+        cases.append(emit.gen_case(rng))
     return cases
 
 
 def run(cases, tier='quick', seed=0):
-    return sched.run_family(__import__('harness.c12', fromlist=['x']), cases, seed, PROPS)
+    """two streams with their own correspondence layers: scheduler traces and row contents"""
+    from harness import emit
+    sc = [(i, c) for i, c in enumerate(cases) if c['kind'] == 'sched']
+    em = [(i, c) for i, c in enumerate(cases) if c['kind'] == 'emit']
+    r1 = sched.run_family(__import__('harness.c12', fromlist=['x']), [c for _, c in sc], seed, PROPS)
+    r2 = common.generic_run(emit, [c for _, c in em], seed, shard=200)
+    obs = [None] * len(cases)
+    out = {'observations': obs, 'oracle': [], 'corr_bad': [], 'corr_error': None, 'stats': {}, 'nontrivial': 0,
+           'samples': r1['samples'][:2] + r2['samples'][:2]}
+    for r, idx in ((r1, sc), (r2, em)):
+        for j, (i, _) in enumerate(idx):
+            obs[i] = r['observations'][j]
+        out['oracle'] += [(idx[j][0], m, s) for j, m, s in r['oracle']]
+        out['corr_bad'] += [idx[j][0] for j in r['corr_bad']]
+        out['stats'].update(r['stats'])
+        out['nontrivial'] += r['nontrivial']
+        if r['corr_error']:
+            out['corr_error'] = (out['corr_error'] or '') + r['corr_error']
+    return out
 
 
-model_output = sched.model_output
+def model_output(case, ob):
+    if case['kind'] == 'emit':
+        from harness import emit
+        return common.coq_eval('EMIT', emit.IMPORTS, 'model_out %s' % emit.render(case, ob))[:3000]
+    return sched.model_output(case, ob)
